@@ -1,6 +1,7 @@
 import WfModel.Handlers
 import WfModel.Serial
 import WfProofs.RunnerRecovery
+import WfProofs.RunnerSend
 import WfProofs.EngineWaitUnrepaired
 /-!
 # C08 — exhausted failures route to the owning error handler within budget
@@ -358,6 +359,107 @@ theorem C08_unrepaired_variant_is_the_model (cfg : Cfg) (pol : Policy) (tick : T
     reduceWithWaitReplay Waiter.replay cfg pol tick st now = reduce cfg pol tick st now :=
   reduceWithWaitReplay_model cfg pol tick st now
 
+/-! ## `ctx.send_event` continues the lineage
+
+An event a running invocation emits with `ctx.send_event` — a handler re-dispatching the failed work
+item, a step downstream of a handler — is tagged with the recovery counts of that invocation
+(`run_worker` → `RetryAttempt.recovery_counts` → `InternalContext.send_event`), whether the invocation
+is a first attempt or a retry.  So the budget of `C08_lineage_budget` needs no assumption about
+step-side sends, and a lineage that continues through `send_event` meets the same budget as one that
+continues through a return value. -/
+
+/-- the tick of a send carries the counts of the sending invocation's in-progress entry — nothing
+else of the entry (not its retry number) enters -/
+theorem C08_send_event_carries_counts (st : State) (step wid : Nat) (e : Ev) (target : Option Nat) (t : Tick)
+    (h : sendTick st step wid e target = some t) :
+    ∃ ip, ip ∈ (st.workers step).inProg ∧ ip.wid = wid ∧ t = .addEvent { ev := e, rc := ip.rc } target :=
+  sendTick_some h
+
+/-- ... hence it is within every handler's budget wherever the state is (no assumption on the sender) -/
+theorem C08_send_event_within_budget (cfg : Cfg) (st : State) (hs : RcInv cfg st) (step wid : Nat) (e : Ev)
+    (target : Option Nat) (t : Tick) (h : sendTick st step wid e target = some t) : tickRcOk cfg t :=
+  sendTick_rc cfg hs h
+
+/-- it reaches the mailbox as it is; the reducer state is untouched -/
+theorem C08_send_event_reaches_mailbox (cfg : Cfg) (pol : Policy) (r : Runner) (s w : Nat) (e : Ev) (tgt : Option Nat)
+    (t : Tick) (hlive : r.outcome = none) (hst : sendTick r.st s w e tgt = some t) :
+    (r.stepS cfg pol (.stepSend s w e tgt)).mailbox = r.mailbox ++ [t] ∧
+    (r.stepS cfg pol (.stepSend s w e tgt)).st = r.st :=
+  stepS_send_mailbox cfg pol r s w e tgt t hlive hst
+
+/-- **the lineage budget with step-side sends** (every schedule in which running invocations call
+`ctx.send_event` at arbitrary points): the invariant of `C08_lineage_budget`, assuming admissible
+counts only of ticks that come from OUTSIDE the run -/
+theorem C08_lineage_budget_sends (cfg : Cfg) (pol : Policy) (r0 : Runner) (h0 : RunnerRc cfg r0) (acts : List CtxAct)
+    (hacts : ∀ a ∈ acts, CtxAct.rcOk cfg a) : RunnerRc cfg (Runner.runS cfg pol r0 acts) :=
+  runS_rc cfg pol acts r0 hacts h0
+
+/-- where the sent event lands: with a free worker it starts as a fresh first attempt WITH the
+sender's counts, otherwise it is queued with them -/
+theorem C08_send_event_lands (e : Ev) (rc : RC) (step : Nat) (ss : StepState) (nw : Nat) (now : Int) (h : IdsOk ss nw) :
+    (ss.inProg.length < nw → ∃ id,
+        (addOrEnqueue { ev := e, rc := rc } step ss nw now).1.inProg = ss.inProg ++
+          [{ ev := e, wid := id, snapEvents := ss.collected, snapWaiters := ss.waiters, attempts := 0,
+             firstAt := now, lastExc := none, lastFailedAt := none, rc := rc }] ∧
+        (addOrEnqueue { ev := e, rc := rc } step ss nw now).1.queue = ss.queue) ∧
+    (¬ ss.inProg.length < nw →
+        (addOrEnqueue { ev := e, rc := rc } step ss nw now).1.queue = ss.queue ++ [{ ev := e, rc := rc }] ∧
+        (addOrEnqueue { ev := e, rc := rc } step ss nw now).1.inProg = ss.inProg) := by
+  refine ⟨fun hlt => ?_, fun hge => ?_⟩
+  · unfold addOrEnqueue
+    simp only [hlt, ↓reduceIte]
+    cases hfree : freeIds ss nw with
+    | nil => exact absurd hfree (freeIds_ne_nil h hlt)
+    | cons i rest => exact ⟨i, by simp [orNat, orInt], rfl⟩
+  · unfold addOrEnqueue
+    simp only [hge, ↓reduceIte, and_self]
+
+/-! Witness (the shape of `harness/corpus/c08_handler_resends_with_send_event.json`): step 2 is owned
+by handler 12 with `max_recoveries = 2`; the handler, running its SECOND entry on this lineage as a
+first attempt (it has no retry policy), re-dispatches the work item with `ctx.send_event`; the item
+starts on step 2 and fails. -/
+
+def C08.scfg : Cfg :=
+  { steps := [{ name := 2, accepted := [5], numWorkers := 1, hasRetry := false },
+              { name := 12, accepted := [tyStepFailed], numWorkers := 1, hasRetry := false }],
+    handlerFor := [(2, 12)], handlers := [(12, 2)] }
+def C08.sfe : Ev := { ty := tyStepFailed, kind := .plain, uid := 0,
+                      fail := some { step := 2, inputUid := 7, exc := 9, attempts := 1, elapsed := 0, failedAt := 3 } }
+def C08.sitem : Ev := { ty := 5, kind := .plain, uid := 8 }
+def C08.srunner : Runner :=
+  { st := { isRunning := true,
+            workers := fun s => if s = 12 then
+              { inProg := [{ ev := C08.sfe, wid := 0, snapEvents := [], snapWaiters := [], attempts := 0, firstAt := 3,
+                             rc := [(12, 2)] }] } else {} },
+    running := [{ step := 12, wid := 0, ev := C08.sfe }], now := 3 }
+
+/-- the handler sends the item (the loop pulls it from the mailbox and starts it on step 2), then
+returns `None`; the item fails -/
+def C08.ssched (send : CtxAct) : List CtxAct :=
+  [send, .act .pull, .act .drain, .act (.workerDone 12 0 [.result none]), .act .drain,
+   .act (.workerDone 2 0 [.failed 9 4]), .act .drain]
+
+/-- **the budget holds across `send_event`**: the sent item carries the handler's two entries, so
+its failure is not routed a third time — the run fails with the step's exception and a
+`WorkflowFailedEvent` -/
+theorem C08_send_event_budget_spent_fails :
+    sendTick C08.srunner.st 12 0 C08.sitem none = some (.addEvent { ev := C08.sitem, rc := [(12, 2)] } none) ∧
+    (Runner.runS C08.scfg C08.wpol C08.srunner (C08.ssched (.stepSend 12 0 C08.sitem none))).outcome =
+      some (.failed 2 9) ∧
+    (Runner.runS C08.scfg C08.wpol C08.srunner (C08.ssched (.stepSend 12 0 C08.sitem none))).stream.getLast? =
+      some (.failed 2 9 1 1) := by decide
+
+/-- **what dropping the counts would do** (refuted alternative: the same schedule with the item sent
+WITHOUT the sender's counts, as an outside party would): the handler is entered a THIRD time —
+a `StepFailedEvent` with count 1 is on its way to handler 12 — and the run does not fail -/
+theorem C08_send_event_without_counts_reenters :
+    (Runner.runS C08.scfg C08.wpol C08.srunner
+        (C08.ssched (.act (.external (.addEvent { ev := C08.sitem } none))))).outcome = none ∧
+    ((Runner.runS C08.scfg C08.wpol C08.srunner
+        (C08.ssched (.act (.external (.addEvent { ev := C08.sitem } none))))).buf.filterMap
+      (fun t => match t with | .addEvent att (some 12) => some (att.ev.ty, att.rc) | _ => none)) =
+      [(tyStepFailed, [(12, 1)])] := by decide
+
 /-! Non-vacuity -/
 -- a pending waiter that an event of the awaited type resolves; the state of the witness satisfies
 -- the hypotheses of the timeout theorem; a free worker exists; a waiter with lost requirements is re-pinged
@@ -382,6 +484,13 @@ example : RcInv C08.wcfg C08.wst := by
       simp [List.find?_cons, this] at hm
   obtain ⟨rfl, rfl⟩ := this
   decide
+-- the witness runner is within budget; the sender is in progress; an admissible schedule with a step-side send
+example : (C08.srunner.st.workers 12).inProg.length = 1 ∧ C08.srunner.outcome = none := by decide
+example : ∀ a ∈ C08.ssched (.stepSend 12 0 C08.sitem none), CtxAct.rcOk C08.scfg a := by
+  intro a ha
+  simp only [C08.ssched, List.mem_cons, List.mem_nil_iff, or_false] at ha
+  rcases ha with rfl | rfl | rfl | rfl | rfl | rfl | rfl <;> trivial
+example : IdsOk ({} : StepState) 1 ∧ ({} : StepState).inProg.length < 1 := ⟨idsOk_empty 1, by decide⟩
 def C08.exHs : List Decl := [⟨12, some [2, 4], 2⟩, ⟨13, none, 1⟩]
 example : valid [0, 2, 4, 12, 13] C08.exHs = true := by decide
 example : ([0, 2, 4, 12, 13].map (handlerFor [0, 2, 4, 12, 13] C08.exHs)) = [some 13, some 12, some 12, none, none] := by decide
